@@ -272,7 +272,8 @@ func spawn(jobs []Job, wi int) ([]line, bool, string, string) {
 	var errBuf bytes.Buffer
 	cmd.Stderr = &errBuf
 	cmd.Stdout = nil
-	cmd.Env = append(os.Environ(), "GOTRACEBACK=single")
+	// LUNAR_RETRY_REQUEST_TIMEOUT_SEC: set by the gateway's image (Dockerfile); Retry needs it
+	cmd.Env = append(os.Environ(), "GOTRACEBACK=single", "LUNAR_RETRY_REQUEST_TIMEOUT_SEC=100")
 	if err := cmd.Start(); err != nil {
 		panic(err)
 	}
